@@ -742,35 +742,10 @@ func (m *StateMachine) sendInitialActionSet(ctx context.Context) (
 
 		// TODO: is it correct to keep the r == 0 check on this?
 		isGenesis := h == m.genesis.InitialHeight && r == 0
-		if isGenesis {
-			// Assuming it's safe to take the reference of the genesis validators.
-			rlc.PrevFinNextValSet = m.genesis.ValidatorSet
-			rlc.PrevFinAppStateHash = string(m.genesis.CurrentAppStateHash)
-
-			// For now, set the previous block hash as the genesis pseudo-block's hash.
-			// But maybe it would be better if the mirror generated this
-			// and sent it as part of the state update.
-			b, err := m.genesis.Header(m.hashScheme)
-			if err != nil {
-				panic(fmt.Errorf(
-					"FATAL: failed to generate genesis block hash: %w", err,
-				))
-			}
-			rlc.PrevBlockHash = string(b.Hash)
-		} else {
-			// TODO: this path does not yet have unit test coverage,
-			// only gcosmos integration test coverage as of writing.
-			_, rlc.PrevBlockHash, rlc.PrevFinNextValSet, rlc.PrevFinAppStateHash, err =
-				m.fStore.LoadFinalizationByHeight(ctx, h-1)
-			if err != nil {
-				m.log.Error(
-					"Failed to load finalization when initializing round lifecycle",
-					"finalization_height", h,
-					"err", err,
-				)
-				return rlc, rer, false
-			}
-
+		if !m.loadPrevFinalization(ctx, &rlc, h, isGenesis) {
+			return rlc, rer, false
+		}
+		if !isGenesis {
 			vrvClone := rer.VRV.Clone()
 			rlc.VRV = &vrvClone
 		}
@@ -792,6 +767,14 @@ func (m *StateMachine) sendInitialActionSet(ctx context.Context) (
 		// the finalization must be recorded against, and will be answered with, that round.
 		rlc.R = rer.CH.Proof.Round
 
+		// The outcome of the previous height is needed in a replay too:
+		// once this height is finalized those values rotate into the current ones,
+		// and without them the next height would start with an empty validator set
+		// (with us not participating, and no channel for our own actions).
+		if !m.loadPrevFinalization(ctx, &rlc, h, h == m.genesis.InitialHeight) {
+			return rlc, rer, false
+		}
+
 		// This is a replay, so we can just tell the driver to finalize it.
 		finReq := tmdriver.FinalizeBlockRequest{
 			Header: rer.CH.Header,
@@ -808,6 +791,48 @@ func (m *StateMachine) sendInitialActionSet(ctx context.Context) (
 	}
 
 	return rlc, rer, ok
+}
+
+// loadPrevFinalization sets the fields of rlc that describe the outcome of the height before h:
+// from the genesis if h is the very beginning of the chain,
+// otherwise from the finalization store.
+// It reports false, after logging, if the finalization cannot be loaded.
+func (m *StateMachine) loadPrevFinalization(
+	ctx context.Context, rlc *tsi.RoundLifecycle, h uint64, isGenesis bool,
+) (ok bool) {
+	if isGenesis {
+		// Assuming it's safe to take the reference of the genesis validators.
+		rlc.PrevFinNextValSet = m.genesis.ValidatorSet
+		rlc.PrevFinAppStateHash = string(m.genesis.CurrentAppStateHash)
+
+		// For now, set the previous block hash as the genesis pseudo-block's hash.
+		// But maybe it would be better if the mirror generated this
+		// and sent it as part of the state update.
+		b, err := m.genesis.Header(m.hashScheme)
+		if err != nil {
+			panic(fmt.Errorf(
+				"FATAL: failed to generate genesis block hash: %w", err,
+			))
+		}
+		rlc.PrevBlockHash = string(b.Hash)
+		return true
+	}
+
+	// TODO: this path does not yet have unit test coverage,
+	// only gcosmos integration test coverage as of writing.
+	var err error
+	_, rlc.PrevBlockHash, rlc.PrevFinNextValSet, rlc.PrevFinAppStateHash, err =
+		m.fStore.LoadFinalizationByHeight(ctx, h-1)
+	if err != nil {
+		m.log.Error(
+			"Failed to load finalization when initializing round lifecycle",
+			"finalization_height", h,
+			"err", err,
+		)
+		return false
+	}
+
+	return true
 }
 
 // handleViewUpdate updates the state machine
